@@ -88,3 +88,28 @@ def rule_literal_termination(run, prog, rid="R-11.7"):
         run.ob(rid, f"{fn.key}::termination", bad is None,
                (f"the source {bad[0]!r} gets the lexical diagnostics {bad[1]} (result {bad[3]!r}); the raw text prescribes {bad[2]}")
                if bad else "", fn.node, evaluations=n)
+
+
+def rule_long_constants(run, prog, rid="R-11.8"):
+    run.rule(rid, "one token whatever the length: get_next_token, interpreted on a constant of each numeric family with 70 and "
+             "300 digits (decimal, octal, hexadecimal, binary, with a suffix; float with a long fraction, a long "
+             "exponent, a long hexadecimal mantissa), returns one CONSTANT spanning the whole constant and reports nothing", floor=1)
+    fn = prog.method("Lexer", "get_next_token")
+    run.require(fn is not None, "anchor vanished: Lexer.get_next_token")
+    bad, n = None, 0
+    try:
+        for k in (70, 300):
+            for src in ("1" * k, "0" + "7" * k, "0x" + "a" * k, "0b" + "1" * k, "9" * k + "ull", "1." + "5" * k, "1." + "5" * k + "f",
+                        "5" * k + ".0", "1e" + "9" * k, "0x1." + "f" * k + "p3"):
+                n += 1
+                sim = LexerSim(prog, src + ";")
+                out = sim.call("get_next_token")
+                tok = out.value if out.kind == "ok" else None
+                got = (getattr(tok, "type", None), getattr(tok, "value", None), sim.pos, sim.error_names())
+                if got != ("CONSTANT", src, len(src), []) and bad is None:
+                    bad = (src[:12] + f"...({len(src)} characters)", (got[0], len(got[1] or ""), got[2], got[3]), out)
+    except Unsupported as e:
+        raise Undecided(f"Lexer.get_next_token is outside the evaluable subset: {e}")
+    run.ob(rid, f"{fn.key}::length-independent", bad is None,
+           (f"the constant {bad[0]} gives (kind, length of the token text, offset reached, diagnostics) = {bad[1]} (result {bad[2]!r}): "
+            f"a valid constant is cut into several tokens") if bad else "", fn.node, evaluations=n)
